@@ -154,7 +154,8 @@ def subst_for(ws, in_roots=()):
 
 def snapshot(ws, in_roots=(), dirs=ARTEFACT_DIRS):
     """{relpath: {'size', 'sha' (bytes), 'kind', 'dsha' (decoded, prefixes substituted), 'rows', 'embeds'}}.
-    'embeds' lists which of the run's own prefixes occur in the raw bytes (which files embed locations)."""
+    'embeds' lists which of the run's own location prefixes occur in the decoded content (feather bodies are LZ4
+    compressed, so the raw bytes cannot be searched): these are the files that embed locations."""
     subst = subst_for(ws, in_roots)
     out = {}
     for rel in list_files(ws, dirs):
@@ -162,9 +163,10 @@ def snapshot(ws, in_roots=(), dirs=ARTEFACT_DIRS):
         with open(p, "rb") as f:
             raw = f.read()
         dec = decode_file(p, subst)
-        emb = sorted({tok for a, tok in subst if a.encode() in raw})
+        canon = canonical(dec)
+        emb = sorted({tok for a, tok in subst if tok in canon})
         out[rel] = {"size": len(raw), "sha": hashlib.sha256(raw).hexdigest(), "kind": dec["kind"],
-                    "dsha": hashlib.sha256(canonical(dec).encode()).hexdigest(),
+                    "dsha": hashlib.sha256(canon.encode()).hexdigest(),
                     "rows": len(dec.get("rows", dec.get("lines", []))) if dec["kind"] != "json" else _json_size(dec["value"]),
                     "embeds": emb}
     return out
@@ -266,7 +268,8 @@ def compare_snapshots(sa, sb, level):
     diffs = []
     key = "sha" if level == "bytes" else "dsha"
     order = {d: i for i, d in enumerate(ARTEFACT_DIRS + INPUT_COPY_DIRS)}
-    for rel in sorted(set(sa) | set(sb), key=lambda r: (order.get(r.split("/", 1)[0], 99), r)):
+    first = {"frontend/module_symbols": 0}      # written by preparation, before any bundle: the earliest artefact
+    for rel in sorted(set(sa) | set(sb), key=lambda r: (order.get(r.split("/", 1)[0], 99), first.get(r, 1), r)):
         if rel not in sa:
             diffs.append((rel, "missing-in-a"))
         elif rel not in sb:
